@@ -8,8 +8,8 @@ package main
 //                                 response answers the first invocation                               → per invocation
 //                                 `<fired events>=><KeyStates>`, joined by ` | `, or `none`
 //   ckpt                          checkpoint barrier: DKV checkpoint, handle recorded by the fake job → ok
-//   restart [new]                 the operator is redeployed from its latest checkpoint (same Operator object, or a
-//                                 fresh Operator process over the same storage directory)             → ok
+//   restart [new] [<id>]          the operator is redeployed from its latest checkpoint or from the retained checkpoint
+//                                 <id> (same Operator object, or a fresh Operator over the same storage directory) → ok
 //   rot / wait                    forced memtable rotation / join of the background tasks            → ok
 //
 // The order in which equal-time timers of different key groups fire is the timer store's business (C10): the driver
@@ -59,24 +59,47 @@ func (t *c03Timer) take() func() {
 	return do
 }
 
-// fake job: remembers the latest completed operator checkpoint
+// fake job: remembers every completed operator checkpoint (recovery may restore an older one than the latest)
 type c03Job struct {
 	proto.NoopJob
 	mu   sync.Mutex
-	last *snapshotpb.OperatorCheckpoint
+	acks []*snapshotpb.OperatorCheckpoint // oldest first; a restore keeps only the restored one
 }
 
 func (j *c03Job) OperatorCheckpointComplete(ctx context.Context, req *snapshotpb.OperatorCheckpoint) error {
 	j.mu.Lock()
 	defer j.mu.Unlock()
-	j.last = req
+	j.acks = append(j.acks, req)
 	return nil
 }
 
-func (j *c03Job) latest() *snapshotpb.OperatorCheckpoint {
+// find returns the retained checkpoint with the id (0 = the latest one)
+func (j *c03Job) find(id uint64) *snapshotpb.OperatorCheckpoint {
 	j.mu.Lock()
 	defer j.mu.Unlock()
-	return j.last
+	if id == 0 && len(j.acks) > 0 {
+		return j.acks[len(j.acks)-1]
+	}
+	for _, a := range j.acks {
+		if a.CheckpointId == id {
+			return a
+		}
+	}
+	return nil
+}
+
+// after a restore only the restored checkpoint is in the reopened database's checkpoint document
+func (j *c03Job) keepOnly(id uint64) {
+	j.mu.Lock()
+	defer j.mu.Unlock()
+	n := 0
+	for _, a := range j.acks {
+		if a.CheckpointId == id {
+			j.acks[n] = a
+			n++
+		}
+	}
+	j.acks = j.acks[:n]
 }
 
 type c03Inv struct{ events, states string }
@@ -402,12 +425,20 @@ func c03ImplOp(c lib.Case, cfg c03Cfg) []string {
 			if e := proc.send(&workerpb.Event{Event: &workerpb.Event_CheckpointBarrier{CheckpointBarrier: &workerpb.CheckpointBarrier{CheckpointId: ckpt}}}); e != "" {
 				return e
 			}
-			if l := job.latest(); l == nil || l.CheckpointId != ckpt {
+			if l := job.find(0); l == nil || l.CheckpointId != ckpt {
 				return "checkpoint-not-acknowledged"
 			}
 			return "ok"
-		case "restart":
-			last := job.latest()
+		case "restart": // restart [new] [<id>]
+			fresh, want := false, uint64(0)
+			for _, a := range f[1:] {
+				if a == "new" {
+					fresh = true
+				} else {
+					want, _ = strconv.ParseUint(a, 10, 64)
+				}
+			}
+			last := job.find(want)
 			if last == nil {
 				return "no-checkpoint"
 			}
@@ -423,7 +454,7 @@ func c03ImplOp(c lib.Case, cfg c03Cfg) []string {
 			// reachable (released instances here, tables leaving a level list in c03Hook) until the case ends: this
 			// check observes the keyed state, not the collector's timing.
 			pinned = append(pinned, db)
-			if len(f) > 1 && f[1] == "new" {
+			if fresh {
 				proc.cancel()
 				select {
 				case <-proc.done:
@@ -435,6 +466,7 @@ func c03ImplOp(c lib.Case, cfg c03Cfg) []string {
 			if e := proc.deploy(cfg, dir, last); e != "" {
 				return e
 			}
+			job.keepOnly(last.CheckpointId) // LoadCheckpointList keeps the named checkpoint only
 			db = proc.op.VerifDB()
 			c03Tune(db, cfg)
 			preflight = operator.NewKeyedStateStore(db, ks)
